@@ -182,3 +182,15 @@ pub fn c14_q_transport_read() {
         assert!(r == Err(Error::Decrypt), "C14: rejected transport message must yield the decrypt error");
     }
 }
+
+// C10 runs the same hostile-size harnesses under its own id: no call may panic (a panic inside a built-in backend is
+// represented by the stub's buffer-contract assertion) for any payload / message / buffer length in 0..=66000
+hostile!(c10_q_hostile_xx_w1, hostile_write, Pat::XX, 0, 1);
+hostile!(c10_q_hostile_ik_w0, hostile_write, Pat::IK, 0, 0);
+hostile!(c10_q_hostile_xx_r1, hostile_read, Pat::XX, 0, 1);
+hostile!(c10_q_hostile_nn_w0, hostile_write, Pat::NN, 0, 0);
+hostile!(c10_t_hostile_xx_w2, hostile_write, Pat::XX, 0, 2);
+hostile!(c10_t_hostile_x_w0, hostile_write, Pat::X, 0, 0);
+hostile!(c10_t_hostile_kx_w1, hostile_write, Pat::KX, 0, 1);
+hostile!(c10_t_hostile_nnpsk0_r0, hostile_read, Pat::NN, 1, 0);
+hostile!(c10_t_hostile_ix_r1, hostile_read, Pat::IX, 0, 1);
